@@ -249,6 +249,7 @@ func expectedVerdict(s EncSpec) verdict {
 
 // checkC10 returns (accepted, verdict).
 func checkC10(t TB, st *Stats, s EncSpec) (bool, verdict) {
+	noteCase("C10", "total-exact-acceptance", s)
 	const P, K = "C10", "total-exact-acceptance"
 	want := expectedVerdict(s)
 	if s.Fam == "aztec" && len(s.Content) == 0 && knownFinding("C03", "F11-aztec-empty-payload") && st != nil {
